@@ -19,6 +19,8 @@ package main
 import (
 	"bytes"
 	"flag"
+	"go/printer"
+	"reflect"
 	"fmt"
 	"go/ast"
 	"go/format"
@@ -488,6 +490,22 @@ func rewriteFile(p *packages.Package, f *ast.File, path string) {
 			}
 			cnt.gos++
 			changed = true
+		case *ast.SelectStmt:
+			if repl := rewriteSelect(p.Fset, n, c.Parent()); repl != nil {
+				needSimrt = true
+				// comments that sat inside the original statement have no home in the
+				// replacement (its nodes carry no positions): drop them
+				var keep []*ast.CommentGroup
+				for _, cg := range f.Comments {
+					if cg.Pos() >= n.Pos() && cg.End() <= n.End() {
+						continue
+					}
+					keep = append(keep, cg)
+				}
+				f.Comments = keep
+				c.Replace(repl)
+				changed = true
+			}
 		case *ast.RangeStmt:
 			t := p.TypesInfo.TypeOf(n.X)
 			if t == nil {
@@ -567,4 +585,102 @@ func rootIdent(e ast.Expr) *ast.Ident {
 			return nil
 		}
 	}
+}
+
+// rewriteSelect makes the choice among several ready cases of a blocking
+// select a scheduled decision: the cases are first polled (non-blocking) in an
+// order drawn from the run's PRNG, and only if none is ready the original
+// blocking select runs. Bodies are duplicated mechanically.
+func rewriteSelect(fset *token.FileSet, sel *ast.SelectStmt, parent ast.Node) ast.Stmt {
+	var clauses []*ast.CommClause
+	for _, st := range sel.Body.List {
+		cc := st.(*ast.CommClause)
+		if cc.Comm == nil {
+			return nil // has a default clause: never blocks, never random among ready cases... but may be random
+		}
+		clauses = append(clauses, cc)
+	}
+	if len(clauses) < 2 {
+		return nil
+	}
+	if _, labeled := parent.(*ast.LabeledStmt); labeled || len(clauses) > 3 {
+		cnt.selectsSkipped++
+		return nil
+	}
+	text := func(n any) string {
+		var b bytes.Buffer
+		if err := printer.Fprint(&b, fset, n); err != nil {
+			die("print select: %v", err)
+		}
+		return b.String()
+	}
+	clauseText := make([]string, len(clauses))
+	for i, cc := range clauses {
+		var b bytes.Buffer
+		b.WriteString("case " + text(cc.Comm) + ":\n")
+		for _, st := range cc.Body {
+			b.WriteString(text(st) + "\n")
+		}
+		clauseText[i] = b.String()
+	}
+	orig := "select {\n" + strings.Join(clauseText, "") + "}\n"
+	var perms [][]int
+	switch len(clauses) {
+	case 2:
+		perms = [][]int{{0, 1}, {1, 0}}
+	case 3:
+		perms = [][]int{{0, 1, 2}, {0, 2, 1}, {1, 0, 2}, {1, 2, 0}, {2, 0, 1}, {2, 1, 0}}
+	}
+	var poll func(order []int) string
+	poll = func(order []int) string {
+		if len(order) == 0 {
+			return orig
+		}
+		return "select {\n" + clauseText[order[0]] + "default:\n" + poll(order[1:]) + "}\n"
+	}
+	var b bytes.Buffer
+	fmt.Fprintf(&b, "package p\nfunc _() {\nswitch zzsimrt.SelectOrder(%d) {\n", len(perms))
+	for i, pm := range perms {
+		if i == len(perms)-1 {
+			b.WriteString("default:\n")
+		} else {
+			fmt.Fprintf(&b, "case %d:\n", i)
+		}
+		b.WriteString(poll(pm))
+	}
+	b.WriteString("}\n}\n")
+	nf, err := parser.ParseFile(token.NewFileSet(), "sel.go", b.Bytes(), 0)
+	if err != nil {
+		die("select rewrite does not parse: %v\n%s", err, b.String())
+	}
+	st := nf.Decls[0].(*ast.FuncDecl).Body.List[0]
+	clearPos(st)
+	cnt.selects++
+	return st
+}
+
+var posType = reflect.TypeOf(token.NoPos)
+
+// clearPos zeroes every token.Pos in the subtree so that nodes parsed in a
+// foreign file set do not confuse the printer.
+func clearPos(n ast.Node) {
+	ast.Inspect(n, func(x ast.Node) bool {
+		if x == nil {
+			return false
+		}
+		v := reflect.ValueOf(x)
+		if v.Kind() == reflect.Pointer {
+			v = v.Elem()
+		}
+		if v.Kind() != reflect.Struct {
+			return true
+		}
+		for i := 0; i < v.NumField(); i++ {
+			f := v.Field(i)
+			if f.Type() == posType && f.CanSet() {
+				f.SetInt(0)
+			}
+		}
+		return true
+	})
 }
